@@ -1,9 +1,199 @@
-(* C10 -- spelling does not matter.  (placeholder while the proofs are being written) *)
-From Coq Require Import List NArith Bool.
-From Verif Require Import Model.CIDict Model.SkipWs Model.Spelling.
+(* C10 -- Spelling does not matter.
+   Only statements, each closed by [exact] of a lemma from Proofs/, then Print Assumptions.
+
+   PARTIAL by nature (DESIGN 4 C10): the theorems below are the per-rule lemmas on the models of
+   the mechanisms that implement case / space / spelling insensitivity.  What is NOT proved is that
+   the combinator parser (parser.py, 1100 lines) maps every spelling of a program to the same tree;
+   that part is tied by the metamorphic correspondence on the real code (tools/props/c10.py). *)
+From Coq Require Import List NArith ZArith Bool String.
+From Verif Require Import Base.Res Gen.GenOpcodes Gen.GenSpelling Model.CIDict Model.SkipWs Model.Spelling
+  Proofs.SpellingP Proofs.SpellingNumP.
 Import ListNotations.
 Open Scope N_scope.
+Open Scope list_scope.
 
-Theorem C10_synonyms_same_pattern : forallb same_pattern synonym_pairs = true.
-Proof. vm_compute. reflexivity. Qed.
+(* ---------------------------------------------------------------- CaseInsensitiveDict
+   for ANY lower-casing function [low] (so also for Python's str.lower on non-ASCII) *)
+Theorem C10_cidict_lookup_case :
+  forall (V : Type) (low : str -> str) (k k' : str) (d : cidict V), low k = low k' ->
+  (forall def, get low k def d = get low k' def d) /\ contains low k d = contains low k' d /\ getitem low k d = getitem low k' d.
+Proof. exact lookup_case. Qed.
+Print Assumptions C10_cidict_lookup_case.
+
+Theorem C10_cidict_set_then_get :
+  forall (V : Type) (low : str -> str) (k k' : str) (v : V) (d : cidict V), low k = low k' ->
+  (forall def, get low k' def (set low k v d) = Some v) /\ contains low k' (set low k v d) = true /\ getitem low k' (set low k v d) = Some v.
+Proof. exact get_after_set. Qed.
+Print Assumptions C10_cidict_set_then_get.
+
+Theorem C10_cidict_set_other_key :
+  forall (V : Type) (low : str -> str) (k k' : str) (v : V) (d : cidict V), low k <> low k' ->
+  (forall def, get low k' def (set low k v d) = get low k' def d) /\ contains low k' (set low k v d) = contains low k' d
+  /\ getitem low k' (set low k v d) = getitem low k' d.
+Proof. exact get_after_set_other. Qed.
+Print Assumptions C10_cidict_set_other_key.
+
+Theorem C10_cidict_last_set_wins :
+  forall (V : Type) (low : str -> str) (k k' k'' : str) (v v' : V) (d : cidict V), low k = low k' -> low k' = low k'' ->
+  getitem low k'' (set low k' v' (set low k v d)) = Some v'.
+Proof. exact last_set_wins. Qed.
+Print Assumptions C10_cidict_last_set_wins.
+
+(* items() keeps the spelling of the key as last assigned, and nothing else changes *)
+Theorem C10_cidict_items_keep_spelling :
+  forall (V : Type) (low : str -> str) (k : str) (v : V) (d : cidict V), wf V low d ->
+  forall k0 v0, In (k0, v0) (items (set low k v d)) <-> (k0, v0) = (k, v) \/ (In (k0, v0) (items d) /\ low k0 <> low k).
+Proof. exact items_after_set. Qed.
+Print Assumptions C10_cidict_items_keep_spelling.
+
+(* every dictionary the code can build is well formed, and lists each folded key once *)
+Theorem C10_cidict_wellformed :
+  forall (V : Type) (low : str -> str),
+  wf V low [] /\ (forall k v d, wf V low d -> wf V low (set low k v d)) /\ (forall l, wf V low (of_items low l))
+  /\ (forall d, wf V low d -> NoDup (map low (keys d))).
+Proof. exact cidict_wellformed. Qed.
+Print Assumptions C10_cidict_wellformed.
+
+(* str.lower = ASCII lower + any function on non-ASCII: flipping the case of any ASCII letters of a key is invisible *)
+Theorem C10_lower_recase :
+  forall (ext : N -> list N) (mask : list bool) (s : str), lower ext (recase mask s) = lower ext s.
+Proof. exact lower_recase. Qed.
+Print Assumptions C10_lower_recase.
+
+(* ---------------------------------------------------------------- skip_whitespace *)
+Theorem C10_skip_ws :
+  forall ws, ws_run ws -> forall rest, skip (ws ++ rest) = skip rest.
+Proof. exact skip_ws_prefix. Qed.
+Print Assumptions C10_skip_ws.
+
+Theorem C10_skip_idempotent : forall s, skip (skip s) = skip s.
+Proof. exact skip_idempotent. Qed.
+Print Assumptions C10_skip_idempotent.
+
+(* it stops at, and never moves past, a character that is neither blank nor ';' *)
+Theorem C10_skip_stops :
+  (forall s c r, skip s = c :: r -> is_space c = false /\ c <> semicolon) /\
+  (forall c r, is_space c = false -> c <> semicolon -> skip (c :: r) = c :: r).
+Proof. exact skip_stops_both. Qed.
+Print Assumptions C10_skip_stops.
+
+(* what is skipped is blank material only (or an unclosed comment reaching the end of the text) *)
+Theorem C10_skip_only_blank :
+  forall s, (exists p, s = p ++ skip s /\ ws_run p)
+         \/ (skip s = [] /\ exists p body, s = p ++ semicolon :: body /\ ws_run p /\ Forall (fun c => c <> newline) body).
+Proof. exact skip_decompose. Qed.
+Print Assumptions C10_skip_only_blank.
+
+(* ---------------------------------------------------------------- registers (over the regenerated REGISTER_NAMES) *)
+Theorem C10_register_spellings :
+  forall n, n < 8 ->
+  try_as_register ascii_lower_str (RSym [114; 48 + n] false) = Some (Ok n) /\      (* rN *)
+  try_as_register ascii_lower_str (RSym [82; 48 + n] false) = Some (Ok n) /\       (* RN *)
+  try_as_register ascii_lower_str (RPct (Z.of_N n)) = Some (Ok n).                 (* %N *)
+Proof. exact register_spellings. Qed.
+Print Assumptions C10_register_spellings.
+
+Theorem C10_sp_pc_spellings :
+  (forall s, In s [[115; 112]; [83; 80]; [83; 112]; [115; 80]] -> try_as_register ascii_lower_str (RSym s false) = Some (Ok 6)) /\
+  (forall s, In s [[112; 99]; [80; 67]; [80; 99]; [112; 67]] -> try_as_register ascii_lower_str (RSym s false) = Some (Ok 7)) /\
+  try_as_register ascii_lower_str (RSym [114; 54] false) = Some (Ok 6) /\
+  try_as_register ascii_lower_str (RSym [114; 55] false) = Some (Ok 7) /\
+  try_as_register ascii_lower_str (RPct 6) = Some (Ok 6) /\ try_as_register ascii_lower_str (RPct 7) = Some (Ok 7).
+Proof. exact sp_pc_spellings. Qed.
+Print Assumptions C10_sp_pc_spellings.
+
+(* any re-casing of any name classifies like the name (registers and FP11 accumulators) *)
+Theorem C10_register_case_irrelevant :
+  (forall (low : str -> str) a b lbl, low a = low b ->
+     try_as_register low (RSym a lbl) = try_as_register low (RSym b lbl) /\ try_accumulator low (RSym a lbl) = try_accumulator low (RSym b lbl)) /\
+  (forall mask name lbl, try_as_register ascii_lower_str (RSym (recase mask name) lbl) = try_as_register ascii_lower_str (RSym name lbl)).
+Proof. exact register_case_both. Qed.
+Print Assumptions C10_register_case_irrelevant.
+
+Theorem C10_register_tables_agree :
+  map fst reg_names_insns = reg_names_parser /\ reg_names_parser = reg_names_types.
+Proof. exact register_tables_agree. Qed.
+Print Assumptions C10_register_tables_agree.
+
+(* ---------------------------------------------------------------- numbers: every radix spelling of every n, any digit-case
+   mask, any admissible follower, with and without a minus sign, lexes to n *)
+Theorem C10_number_spellings :
+  forall (st : style) (mask : nat -> bool) (n : N) (rest : str), style_ok st = true -> follow_ok rest = true ->
+  lex_value (lex_number (spell st mask n ++ rest)) = Some (Z.of_N n) /\
+  lex_value (lex_number (45 :: spell st mask n ++ rest)) = Some (- Z.of_N n)%Z.
+Proof. exact number_spellings. Qed.
+Print Assumptions C10_number_spellings.
+
+(* ---------------------------------------------------------------- grouping *)
+Theorem C10_grouping_irrelevant :
+  forall env dot un bin,
+  (forall f e, eval env dot un bin (regroup f e) = eval env dot un bin e) /\
+  (forall e, eval env dot un bin (ungroup e) = eval env dot un bin e).
+Proof. exact grouping_both. Qed.
+Print Assumptions C10_grouping_irrelevant.
+
+Theorem C10_group_operand_irrelevant :
+  forall (low : str -> str) br br' t, as_reg low t = None ->
+  e_mode (classify low (OParen br t)) = e_mode (classify low (OParen br' t)) /\
+  e_reg (classify low (OParen br t)) = e_reg (classify low (OParen br' t)) /\
+  e_mode (classify low (OParen br t)) = 6 /\ e_reg (classify low (OParen br t)) = Ok 7.
+Proof. exact group_operand_irrelevant. Qed.
+Print Assumptions C10_group_operand_irrelevant.
+
+(* ---------------------------------------------------------------- '(rN)' versus '@rN' *)
+Theorem C10_legacy_deferred_same_mode :
+  forall (low : str -> str) t r, as_reg low t = Some r ->
+  classify low (OParen BParen t) = enc 1 r XNone [] /\
+  classify low (ODeferred t) = enc 1 r XNone ["legacy-deferred"%string].
+Proof. exact legacy_deferred_same_mode. Qed.
+Print Assumptions C10_legacy_deferred_same_mode.
+
+(* ---------------------------------------------------------------- synonyms, in the regenerated opcode table *)
+Theorem C10_synonyms_same_pattern :
+  forall a b, In (a, b) synonym_pairs -> exists p, pattern_of (s2n a) = Some p /\ pattern_of (s2n b) = Some p.
+Proof. exact synonyms_same_pattern. Qed.
 Print Assumptions C10_synonyms_same_pattern.
+
+Theorem C10_mnemonic_case_irrelevant :
+  forall mask m, pattern_of (recase mask m) = pattern_of m.
+Proof. exact pattern_case_irrelevant. Qed.
+Print Assumptions C10_mnemonic_case_irrelevant.
+
+(* ---------------------------------------------------------------- '.word a, b' versus implicit list *)
+Theorem C10_word_list_same :
+  forall gai16 odd vals, vals <> [] -> emit_word_list gai16 odd vals = emit_word_directive gai16 odd vals.
+Proof. exact word_list_same. Qed.
+Print Assumptions C10_word_list_same.
+
+(* ---------------------------------------------------------------- non-vacuity *)
+Example C10_ex_dict :            (* 'SP' set, 'sp' read, 'Sp' overwrites, items keeps 'Sp' *)
+  let d := set ascii_lower_str [83; 112] 2 (set ascii_lower_str [83; 80] 1 []) in
+  getitem ascii_lower_str [115; 112] d = Some 2 /\ items d = [([83; 112], 2)].
+Proof. vm_compute. split; reflexivity. Qed.
+
+Example C10_ex_skip :            (* "  ; c\n\t;;\n x" -> "x" *)
+  skip [32; 32; 59; 32; 99; 10; 9; 59; 59; 10; 32; 120] = [120] /\
+  ws_run [32; 32; 59; 32; 99; 10; 9; 59; 59; 10; 32].
+Proof.
+  split; [vm_compute; reflexivity|].
+  apply ws_blank; [reflexivity|]. apply ws_blank; [reflexivity|].
+  apply (ws_comment [32; 99]); [repeat constructor; discriminate|].
+  apply ws_blank; [reflexivity|].
+  apply (ws_comment [59]); [repeat constructor; discriminate|].
+  apply ws_blank; [reflexivity|]. constructor.
+Qed.
+
+Example C10_ex_numbers :         (* 0xAbC, ^xaBc, 5274 , 2748. , 0B101010111100 followed by ", " all denote 2748 *)
+  map (fun st => lex_value (lex_number (spell st Nat.even 2748 ++ [44; 32]))) [SC 120; SCaret 120; SOct; SDec; SC 66]
+  = [Some 2748%Z; Some 2748%Z; Some 2748%Z; Some 2748%Z; Some 2748%Z]
+  /\ spell (SC 120) Nat.even 2748 = [48; 120; 65; 98; 67] /\ follow_ok [44; 32] = true.
+Proof. vm_compute. repeat split; reflexivity. Qed.
+
+Example C10_ex_legacy :          (* (R3) and @r3 *)
+  e_mode (classify ascii_lower_str (OParen BParen (OReg (RSym [82; 51] false)))) = 1 /\
+  e_reg (classify ascii_lower_str (ODeferred (OReg (RSym [114; 51] false)))) = Ok 3 /\
+  e_mode (classify ascii_lower_str (OParen BAngle (OReg (RSym [114; 51] false)))) = 6.
+Proof. vm_compute. repeat split; reflexivity. Qed.
+
+Example C10_ex_synonym : pattern_of (s2n "BHIS") = Some "103[0oo]oo"%string /\ pattern_of (s2n "bcc") = Some "103[0oo]oo"%string.
+Proof. vm_compute. split; reflexivity. Qed.
